@@ -40,7 +40,7 @@ def shards(tier):
     return 8 if tier == "quick" else 16
 
 
-TIMEOUT = {"quick": 240, "thorough": 1500}
+TIMEOUT = {"quick": 400, "thorough": 1500}
 
 FRAGS = ("whole", "byte", "small", "random", "edges")
 
@@ -251,8 +251,16 @@ def full_session(ctx, rng, cipher, mac, comp, n_rekeys):
         so.compression = [comp]
     wit = dict(cipher=cipher, mac=mac, comp=comp, rekeys=n_rekeys)
     try:
-        if not P.start(timeout=60):
-            ctx.inconclusive("full-stack handshake did not complete: %r / %r" % (P.client_exc, P.server_exc))
+        if not P.start(timeout=90):
+            errs = [x for x in P.rec.snapshot() if x.get("kind") == "readerr" and x.get("exc") != "EOFError"]
+            if errs:
+                ctx.violation("full session: receiver failed on an untampered stream: %s" % errs[0]["exc"],
+                              "a transport's read_message raised %s (%s) during an honest handshake"
+                              % (errs[0]["exc"], errs[0].get("text")), dict(wit, err=errs[0].get("text")))
+            else:
+                # slow box: no verdict from this session; the floor on compared sessions decides
+                ctx.count("fullstack_sessions_abandoned")
+                ctx.note("fullstack_abandoned_reason", "handshake: %r / %r" % (P.client_exc, P.server_exc))
             return
         P.auth()
         cc, sc = P.session(timeout=60)
@@ -302,7 +310,8 @@ def full_session(ctx, rng, cipher, mac, comp, n_rekeys):
                           % (errs[0]["exc"], errs[0].get("text")), dict(wit, err=errs[0].get("text")))
             return
         if not ok:
-            ctx.inconclusive("full-stack session not quiescent after 30 s")
+            ctx.count("fullstack_sessions_abandoned")
+            ctx.note("fullstack_abandoned_reason", "not quiescent after 30 s")
             return
         ctx.count("fullstack_sessions_compared")
     except Exception as e:
@@ -312,7 +321,8 @@ def full_session(ctx, rng, cipher, mac, comp, n_rekeys):
                           "a transport's read_message raised %s (%s) during an honest session"
                           % (errs[0]["exc"], errs[0].get("text")), dict(wit, err=errs[0].get("text"), api=repr(e)))
         else:
-            ctx.inconclusive("full-stack session harness error: %r" % (e,))
+            ctx.count("fullstack_sessions_abandoned")
+            ctx.note("fullstack_abandoned_reason", "harness: %r" % (e,))
     finally:
         P.close()
 
@@ -323,8 +333,8 @@ def run(ctx):
     combos = [(c, m, comp, role) for (c, m) in suites for comp in pb.COMPRESSIONS for role in ("client", "server")]
     ctx.note("suites_offered", len(suites))
     ctx.note("combinations", len(combos))
-    per_combo = ctx.pick(8, 200)
-    end = ctx.deadline(120, 600)
+    per_combo = ctx.pick(8, 400)
+    end = ctx.deadline(120, 400)
     import time
 
     for rep in range(per_combo):
